@@ -59,6 +59,18 @@ theorem C03_scheduler (mtch : Template → Schedule → Except Err Bool)
   rw [canonicalize_image_eq s hwf] at this
   exact this
 
+/-- The `WF` hypothesis above is exactly what `SchedulePattern.__init__` enforces: every schedule the
+constructor accepts (all bounds strictly positive, one matrix column per bound) is well-formed; in particular a
+zero-extent dimension never reaches `canonicalize` / `tile_dim` / the scheduler. -/
+theorem constructed_is_wf (bounds : List Int) (ops : List Operand) (s : Schedule)
+    (h : construct bounds ops = .ok s) : WF s := construct_wf h
+
+/-- Without that guard the property fails: a zero-extent dim is dropped by `canonicalize` like a unit dim
+(0 iterations become 8). -/
+theorem canonicalize_zero_bound_fails :
+    ∃ s : Schedule, imageS s = [] ∧ (imageS (canonicalize s)).length = 8 :=
+  ⟨⟨[0, 8], [⟨[[1, 0], [0, 1]], [0, 0]⟩]⟩, by decide, by decide⟩
+
 /-- Why the divisibility guard is the mechanism: without it `tile_dim` loses iterations
 (bound 3 tiled by 2 gives a 1×2 box). -/
 theorem tile_nondivisible_fails :
